@@ -3,8 +3,12 @@
   `_row_check`/`and_`, 462-524 `inc`, 559-609 `exc`, 413-428 `find_`), for property C06.
 
   A column condition (`Cond`) is what a keyword filter `key = value` means: `None`, NaN, a compiled regex
-  (literal patterns only: `search` = substring containment — an assumption sampled by correspondence) or
-  membership in a list of admissible values under python `==` (`Cell.pyEq`).  `inc` applies the
+  (ANY function `String → Bool` standing for `pattern.search(s) is not None`: the theorems of C06 hold for every
+  such function; the driver instantiates it with `RePat.search`, a small matcher for literal characters, `.`,
+  `^`, `$` and `re.I` — that this is what `re` does is an assumption sampled by correspondence) or
+  membership in a list of admissible values BY VALUE (`Cell.valEq`: python `==`, and NaN equals NaN — the
+  repaired `_row_check`; the unrepaired code used `in`, i.e. identity-or-`==`, and its answer for NaN cells
+  depended on which NaN OBJECT sat in the table and in the list).  `inc` applies the
   conditions one after the other as boolean masks (lines 512-521), `exc` evaluates them all per row
   (`and_`) and negates; both rebuild the empty result with the table's columns.
   A callable is any `row index → Except Err Bool` (the driver supplies a small menu).
@@ -16,31 +20,63 @@ namespace Pyg
 inductive Cond where
   | isNone
   | isNaN
-  | regex (p : String)
+  | regex (m : String → Bool)
   | oneOf (vs : List Cell)
-  deriving Repr, Inhabited
+  deriving Inhabited
+
+/-- equality of two cells as VALUES: python `==` (`1 == 1.0`), and NaN is the same value as NaN -/
+def Cell.valEq (a b : Cell) : Bool := a.pyEq b || (a == .nan && b == .nan)
 
 /-- `p in s` for lists of characters -/
 def infixB (p : List Char) : List Char → Bool
   | [] => p.isEmpty
   | c :: cs => p.isPrefixOf (c :: cs) || infixB p cs
 
-/-- `_row_check(row, key, value)` on the cell `v = row[key]` (lines 201-209):
-`v is None` / `is_nan(v)` (true of NaN and ±inf) / `is_str(v) and value.search(v) is not None` /
-`v in as_list(value)` -/
+/-- `_row_check(row, key, value)` on the cell `v = row[key]` (repaired code):
+`v is None` / `_is_nan(v)` (NaN only; ±inf are ordinary values) / `is_str(v) and value.search(v) is not None` /
+`_in(v, as_list(value))` = `==` with some admissible value, or NaN when a NaN is admissible -/
 def Cond.test : Cond → Cell → Bool
   | .isNone, c => c == .none
-  | .isNaN, c => c == .nan || c == .pinf || c == .ninf
-  | .regex p, .str s => infixB p.toList s.toList
+  | .isNaN, c => c == .nan
+  | .regex m, .str s => m s
   | .regex _, _ => false
-  | .oneOf vs, c => vs.any fun v => v.pyEq c
+  | .oneOf vs, c => vs.any fun v => v.valEq c
 
 /-- a keyword filter value: how `inc/exc/_row_check` classify it -/
 def Cond.ofValue : ColVal → Cond
   | .one .none => .isNone
-  | .one .nan | .one .pinf | .one .ninf => .isNaN
+  | .one .nan => .isNaN
   | .one c => .oneOf [c]
   | .many vs => .oneOf vs
+
+/-! ### the regular expressions of the correspondence: literal characters, `.`, `^…`, `…$`, `re.I` -/
+
+structure RePat where
+  bol : Bool                      -- pattern starts with `^`
+  eol : Bool                      -- pattern ends with `$`
+  icase : Bool                    -- `re.I`
+  items : List (Option Char)      -- `none` = `.`
+  deriving Repr, Inhabited
+
+/-- do the items match a prefix of `cs` (and, with `$`, all of it) -/
+def RePat.matchAt (p : RePat) : List (Option Char) → List Char → Bool
+  | [], rest => !p.eol || rest.isEmpty
+  | _ :: _, [] => false
+  | i :: is, c :: cs =>
+    (match i with
+      | Option.none => c != '\n'
+      | some x => if p.icase then x.toLower == c.toLower else x == c) && p.matchAt is cs
+
+def tailsOf : List Char → List (List Char)
+  | [] => [[]]
+  | c :: cs => (c :: cs) :: tailsOf cs
+
+/-- `re.compile(pattern, flags).search(s) is not None` for these patterns (strings without newline) -/
+def RePat.search (p : RePat) (s : String) : Bool :=
+  if p.bol then p.matchAt p.items s.toList else (tailsOf s.toList).any (p.matchAt p.items)
+
+/-- a literal pattern -/
+def RePat.lit (s : String) : RePat := ⟨false, false, false, s.toList.map some⟩
 
 namespace Table
 
@@ -131,7 +167,7 @@ def find (t : Table) (key : String) (fn : Option (Table → Nat → Except Err B
     | .ok item =>
       match item with
       | [] => .error .value
-      | x :: rest => if rest.all (x.pyEq ·) then .ok x else .error .value     -- len(set(item)) > 1
+      | x :: rest => if rest.all (x.valEq ·) then .ok x else .error .value     -- more than one distinct value (NaN = NaN)
 
 end Table
 
